@@ -6,8 +6,8 @@ use vlab::engine::report::{self, Check, Tier};
 
 fn parts(tier: Tier) -> Vec<(TKind, Which, usize, usize)> {
     match tier {
-        Tier::Quick => vec![(TKind::Model, Which::VsockRx, 32, 2), (TKind::Model, Which::Input, 128, 1), (TKind::Model, Which::Sound, 128, 1), (TKind::Pci, Which::VsockRx, 20, 1), (TKind::MmioLegacy, Which::Input, 40, 1)],
-        Tier::Thorough => vec![(TKind::Model, Which::VsockRx, 32, 3), (TKind::Model, Which::Input, 96, 2), (TKind::Model, Which::Sound, 96, 2), (TKind::Model, Which::Input, 128, 1), (TKind::Model, Which::Sound, 128, 1), (TKind::Pci, Which::VsockRx, 32, 2), (TKind::MmioLegacy, Which::Input, 64, 2), (TKind::MmioModern, Which::Sound, 64, 2)],
+        Tier::Quick => vec![(TKind::Model, Which::VsockRx, 32, 2), (TKind::Model, Which::Input, 128, 1), (TKind::Model, Which::Sound, 128, 1), (TKind::Pci, Which::VsockRx, 20, 1), (TKind::MmioLegacy, Which::Input, 40, 1), (TKind::Model, Which::VsockRxLarge, 24, 2)],
+        Tier::Thorough => vec![(TKind::Model, Which::VsockRx, 32, 3), (TKind::Model, Which::Input, 96, 2), (TKind::Model, Which::Sound, 96, 2), (TKind::Model, Which::Input, 128, 1), (TKind::Model, Which::Sound, 128, 1), (TKind::Model, Which::VsockRxLarge, 32, 2), (TKind::Pci, Which::VsockRx, 32, 2), (TKind::MmioLegacy, Which::Input, 64, 2), (TKind::MmioModern, Which::Sound, 64, 2)],
     }
 }
 
